@@ -127,7 +127,7 @@ type Built struct {
 }
 
 func (b *Built) Close() {
-	if b != nil && b.L != nil {
+	if b != nil && b.L != nil && os.Getenv("VERIF_KEEP_SCRATCH") == "" {
 		_ = os.RemoveAll(b.L.Root)
 	}
 }
